@@ -4,6 +4,7 @@ import (
 	"encoding/json"
 	"fmt"
 	"os"
+	"runtime"
 	"sort"
 	"strings"
 	"sync"
@@ -21,6 +22,16 @@ type Case struct {
 	Spare    []int  `json:"spare"`
 	Adjacent []int  `json:"adjacent,omitempty"` // {a, b}: argument b directly behind argument a
 	Layout   string `json:"layout"`
+	AfterGC  bool   `json:"after_gc,omitempty"` // the write was seen when the arena was re-verified after garbage collection
+	Earlier  *Case  `json:"earlier,omitempty"`  // sequence: this call ran first; the scenario above wrote to what it returned
+	Hand     *Hand  `json:"hand,omitempty"`     // hand-over pair: result Res of scenario A is argument Arg of the scenario above
+}
+
+// Hand identifies a hand-over pair.
+type Hand struct {
+	A   string `json:"a"`
+	Res int    `json:"res"`
+	Arg int    `json:"arg"`
 }
 
 func run(r *enumx.Run, replay *enumx.ReplayCase) {
@@ -34,13 +45,40 @@ func run(r *enumx.Run, replay *enumx.ReplayCase) {
 			return
 		}
 		for pass := 0; pass < 2; pass++ {
+			byID := map[string]*scenario{}
 			for _, sc := range scs {
-				if sc.id != c.Scenario {
-					continue
+				byID[sc.id] = sc
+			}
+			if sc := byID[c.Scenario]; sc != nil {
+				lay := layout{spare: c.Spare, adj: c.Adjacent}
+				var fs []finding
+				switch {
+				case c.Hand != nil:
+					if a := byID[c.Hand.A]; a != nil {
+						fs, _ = handOver(a, sc, c.Hand.Res, c.Hand.Arg)
+					}
+				case c.Earlier != nil:
+					if e := byID[c.Earlier.Scenario]; e != nil {
+						ss := &session{}
+						e.runS(layout{spare: c.Earlier.Spare, adj: c.Earlier.Adjacent}, ss)
+						sc.runS(lay, ss)
+						for _, w := range ss.later {
+							fs = append(fs, laterFinding(w).f)
+						}
+					}
+				case c.AfterGC:
+					ss := &session{}
+					sc.runS(lay, ss)
+					for _, f := range ss.finish() {
+						fs = append(fs, f.f)
+					}
+				default:
+					fs, _ = sc.evaluate(lay)
 				}
-				fs, _ := sc.evaluate(layout{spare: c.Spare, adj: c.Adjacent})
+				seen := false
 				for _, f := range fs {
-					if f.key == replay.Key {
+					if f.key == replay.Key && !seen {
+						seen = true
 						r.Violation(f.key, f.msg, c)
 					}
 				}
@@ -73,38 +111,132 @@ func run(r *enumx.Run, replay *enumx.ReplayCase) {
 		f finding
 		c Case
 	}
-	found := make([][]pending, len(scs)) // reported afterwards in scenario order: deterministic output
-	n := r.Parallel(len(scs), func(i int) {
-		sc := scs[i]
+	_ = sort.Strings
+	// Scenarios run in batches of batchSize on one goroutine each, inside a
+	// session (returned buffers of the last 8 calls watched; arenas re-verified
+	// after two garbage collections at the end of the batch).
+	const batchSize = 16
+	nb := (len(scs) + batchSize - 1) / batchSize
+	found := make([][]pending, nb) // reported afterwards in batch order: deterministic output
+	var lateWrites, gcChecked int64
+	done := r.Parallel(nb, func(bi int) {
+		runtime.LockOSThread()
+		defer runtime.UnlockOSThread()
+		ss := &session{}
 		var cnt, nt int64
 		loc := map[string]int{}
-		for _, lay := range layouts(sc) {
-			fs, out := sc.evaluate(lay)
-			cnt++
-			nz := lay.adj != nil
-			for j, a := range sc.args {
-				nz = nz || (a.carve && (lay.spare[j] > 0 || a.dst))
+		fnCalls := map[string]int{}
+		hi := (bi + 1) * batchSize
+		if hi > len(scs) {
+			hi = len(scs)
+		}
+		for _, sc := range scs[bi*batchSize : hi] {
+			for _, lay := range layouts(sc) {
+				fs, out := sc.evaluateS(lay, ss)
+				cnt++
+				nz := lay.adj != nil
+				for j, a := range sc.args {
+					nz = nz || (a.carve && (lay.spare[j] > 0 || a.dst))
+				}
+				if nz {
+					nt++
+				}
+				loc[out.kind]++
+				fnCalls[sc.fn]++
+				if out.kind == "panic" {
+					mu.Lock()
+					panics[sc.id[:strings.Index(sc.id+"|", "|")]+": "+out.err]++
+					mu.Unlock()
+				}
+				for _, f := range fs {
+					found[bi] = append(found[bi], pending{f, Case{Scenario: sc.id, Spare: lay.spare, Adjacent: lay.adj, Layout: layoutString(sc, lay)}})
+				}
 			}
-			if nz {
-				nt++
-			}
-			loc[out.kind]++
-			if out.kind == "panic" {
-				mu.Lock()
-				panics[sc.id[:strings.Index(sc.id+"|", "|")]+": "+out.err]++
-				mu.Unlock()
-			}
-			for _, f := range fs {
-				found[i] = append(found[i], pending{f, Case{Scenario: sc.id, Spare: lay.spare, Adjacent: lay.adj, Layout: layoutString(sc, lay)}})
-			}
+		}
+		kept := len(ss.kept)
+		for _, f := range ss.finish() {
+			found[bi] = append(found[bi], pending{f.f, f.c})
 		}
 		r.Count(cnt, nt)
 		mu.Lock()
 		for k, v := range loc {
 			outcomes[k] += v
-			outcomes[sc.fn[:strings.LastIndexAny(sc.fn+".", ".")]+":"+k] += 0
 		}
-		perFn[sc.fn] += int(cnt)
+		for k, v := range fnCalls {
+			perFn[k] += v
+		}
+		lateWrites += int64(len(ss.later))
+		gcChecked += int64(kept)
+		mu.Unlock()
+	})
+	n := len(scs)
+	if done < nb {
+		n = done * batchSize
+	}
+
+	// ---- ordered pairs over the function x family alphabet
+	byID := map[string]*scenario{}
+	for _, sc := range scs {
+		byID[sc.id] = sc
+	}
+	var alpha []*scenario
+	for _, id := range alphabetIDs {
+		if sc := byID[id]; sc != nil {
+			alpha = append(alpha, sc)
+		} else {
+			r.Violation("machinery/alphabet-scenario-missing", id, nil)
+		}
+	}
+	pairFound := make([][]pending, len(alpha))
+	var seqPairs, handPairs, handCalls int64
+	pdone := r.Parallel(len(alpha), func(ai int) {
+		runtime.LockOSThread()
+		defer runtime.UnlockOSThread()
+		a := alpha[ai]
+		var sp, hp, hc int64
+		// (1) sequences: A, then B, in one session - B must not write to what A returned
+		ss := &session{}
+		for _, b := range alpha {
+			a.runS(pairLayout(a), ss)
+			b.runS(pairLayout(b), ss)
+			sp++
+		}
+		for _, f := range ss.finish() {
+			pairFound[ai] = append(pairFound[ai], pending{f.f, f.c})
+		}
+		// (2) hand-overs: each slice A returns as each input argument of B
+		for _, b := range alpha {
+			any := false
+			for res := 0; res < 2; res++ {
+				for arg, x := range b.args {
+					if !x.carve || x.dst {
+						continue
+					}
+					fs, ran := handOver(a, b, res, arg)
+					if !ran {
+						continue
+					}
+					any = true
+					hc++
+					perKey := map[string]bool{}
+					for _, f := range fs {
+						if perKey[f.key] {
+							continue
+						}
+						perKey[f.key] = true
+						pairFound[ai] = append(pairFound[ai], pending{f, Case{Scenario: b.id, Spare: pairLayout(b).spare, Layout: layoutString(b, pairLayout(b)), Hand: &Hand{A: a.id, Res: res, Arg: arg}}})
+					}
+				}
+			}
+			if any {
+				hp++
+			}
+		}
+		r.Count(sp+hc, sp+hc)
+		mu.Lock()
+		seqPairs += sp
+		handPairs += hp
+		handCalls += hc
 		mu.Unlock()
 	})
 	for _, ps := range found {
@@ -112,6 +244,22 @@ func run(r *enumx.Run, replay *enumx.ReplayCase) {
 			r.Violation(p.f.key, p.f.msg, p.c)
 		}
 	}
+	for _, ps := range pairFound {
+		for _, p := range ps {
+			r.Violation(p.f.key, p.f.msg, p.c)
+		}
+	}
+	if pdone == len(alpha) {
+		r.Space(fmt.Sprintf("ordered pairs over an alphabet of %d calls (function x implementation family): %d sequences A;B (returned buffers of A watched while B runs), %d pairs with a hand-over (%d B-calls: each slice A returns as each input argument of B)", len(alpha), seqPairs, handPairs, handCalls))
+	} else {
+		r.Incomplete(fmt.Sprintf("ordered pairs: %d of %d first calls done when the budget expired", pdone, len(alpha)))
+	}
+	r.Set("pair_alphabet", len(alpha))
+	r.Set("pair_sequences", seqPairs)
+	r.Set("pair_handover_pairs", handPairs)
+	r.Set("pair_handover_calls", handCalls)
+	r.Set("arenas_reverified_after_gc", gcChecked)
+	r.Set("late_writes_to_returned_buffers", lateWrites)
 	if n == len(scs) {
 		r.Space(fmt.Sprintf("%d scenarios (function x algorithm x path x length x dst variant) x all spare-capacity layouts", len(scs)))
 	} else {
